@@ -29,6 +29,38 @@ var commonAssumptions = []string{
 }
 
 var props = map[string]propInfo{
+	"C01": {
+		Engine: "pbfsim", Race: true, Level: "exploration",
+		QuickRuns: 12000, ThoroughRuns: 400000, QuickSecs: 600, ThoroughSecs: 4 * 3600, Chunk: 400,
+		Rule:   "a run is one PBF file written from a model by the independent writer h/pbfwire (0-12, sometimes up to 40 blocks; header and each of its fields optional; per block granularity/offsets/date granularity present or absent with non-default values, raw or zlib, dense nodes with DenseInfo and each of its six columns and keys_vals present or absent, ways/relations with Info and each field optional, node locations on ways, empty ways/relations, changeset groups, unknown fields, parameter fields before or after the groups; optional parts are toggled with period = decoder count; 1 file in 8 may contain plain Node groups) scanned once at a decoder count from {1,2,3,4,5,7,10,11,16,32} under a drawn reader chunking and delay policy. Non-trivial: two blocks decoded by the same worker differ in their optional parts, or a block has non-default granularity/offsets/date granularity. distinct = distinct (file, decoder count, interleaving hash) among non-trivial executions",
+		Probes: []string{"optional-parts-differ-on-one-worker", "non-default-granularity-or-offset", "more-decoders-than-blocks", "unbuffered-channels", "file-with-plain-node-group"},
+		Real:   pbfReal, Simulated: pbfSim,
+		Assumptions: append([]string{"the model of the format defaults is h/pbfwire/gen.go, written from osmformat.proto's documentation", "files have at most ~40 blocks and a few hundred elements"}, commonAssumptions...),
+	},
+	"C02": {
+		Engine: "pbfsim", Race: true, Level: "exploration",
+		QuickRuns: 4000, ThoroughRuns: 150000, QuickSecs: 600, ThoroughSecs: 4 * 3600, Chunk: 200,
+		Rule:   "a run is one generated file (2-12, sometimes up to 40 blocks), a reference scan with 1 decoder and unit delays, and 3 executions at decoder counts drawn from 1..12,16,32 under drawn delay policies (per-goroutine speed classes 1..1000 quanta, consumer 1..4000), reader chunking, and accept-all filter callbacks that are delay points in half of the executions. Oracle: delivered sequence deep-equal to the reference, snapshots at delivery equal values after the scan, no race report, no deadlock. Non-trivial: some later block finished decoding before an earlier one (observed through the callbacks). distinct = distinct (file, decoder count, interleaving hash) among non-trivial executions",
+		Probes: []string{"later-block-finished-before-earlier", "more-decoders-than-blocks", "unbuffered-channels", "slow-filter-callbacks"},
+		Real:   pbfReal, Simulated: pbfSim,
+		Assumptions: commonAssumptions,
+	},
+	"C08": {
+		Engine: "pbfsim", Race: true, Level: "exploration",
+		QuickRuns: 4000, ThoroughRuns: 150000, QuickSecs: 600, ThoroughSecs: 4 * 3600, Chunk: 200,
+		Rule:   "a run is one generated file, an unfiltered 1-decoder reference scan, and 3 executions each with a drawn skip mask (0..7), a drawn predicate family per element type (accept-all, reject-all, alternate by ordinal, hash of the whole content, only tagged, reject-2-accept-1, content length parity; each installed with probability 3/4), decoder count from {1,2,3,4,5,7,10,11,16,32} and delay policy; predicates are functions of the element only, inspect but never retain it, and are delay points in half of the executions. Oracle: output = reference filtered by mask and predicate, deep-equal and in order; snapshots at delivery = values after the scan. Non-trivial: in some block an element was rejected and a later element of that block accepted (memory reuse exercised)",
+		Probes: []string{"rejected-then-accepted-in-one-block", "skip-flags-set", "everything-filtered-out"},
+		Real:   pbfReal, Simulated: pbfSim,
+		Assumptions: commonAssumptions,
+	},
+	"C09": {
+		Engine: "pbfsim", Race: true, Level: "exploration",
+		QuickRuns: 1500, ThoroughRuns: 60000, QuickSecs: 600, ThoroughSecs: 4 * 3600, Chunk: 100,
+		Rule:   "a run is one generated file (1-8 blocks) with a drawn skip mask (empty blocks), a full scan that checks FullyScannedBytes / PreviousFullyScannedBytes after every successful Scan against the file's block table, and crash/restart executions: the consumer stops after k objects (k = 0, 1, all and 6 drawn values), persists the reported offset (and, separately, the previous offset) and a new scanner with independently drawn decoder count and schedule is started on data[offset:]; it must yield exactly the remaining objects beginning with the first object of that block. Every restart execution is non-trivial",
+		Probes: []string{"empty-blocks-from-skip-flags", "resumed-scan-starts-at-a-data-block"},
+		Real:   pbfReal, Simulated: pbfSim,
+		Assumptions: append([]string{"offsets are asserted after successful Scan calls only"}, commonAssumptions...),
+	},
 	"C06": {
 		Engine: "pbfsim", Race: true, Level: "fault_enumeration",
 		QuickRuns: 3 * 16, ThoroughRuns: 120 * 16, QuickSecs: 600, ThoroughSecs: 4 * 3600, Chunk: 1, Group: 16,
